@@ -47,7 +47,9 @@ fn main() {
             let count: usize = arg(&args, "--count", "50").parse().unwrap();
             let maxi: usize = arg(&args, "--max-instances", "6").parse().unwrap();
             let mode = arg(&args, "--mode", "mixed");
-            if mode == "defaults" {
+            if mode == "huge" {
+                bincase::run_huge(seed, count, &mut out);
+            } else if mode == "defaults" {
                 bincase::run_defaults(&mut out, 20);
             } else if mode == "columns" {
                 bincase::run_columns(seed, count, &mut out);
@@ -78,7 +80,9 @@ fn main() {
             let count: usize = arg(&args, "--count", "50").parse().unwrap();
             let maxi: usize = arg(&args, "--max-instances", "6").parse().unwrap();
             let mode = arg(&args, "--mode", "mixed");
-            if mode == "descriptors" {
+            if mode == "huge" {
+                xmlcase::run_huge(seed, count, &mut out);
+            } else if mode == "descriptors" {
                 xmlcase::run_descriptors(seed, 6, &mut out);
             } else if mode == "probe-content-object" {
                 xmlcase::run_probe_content_object(&mut out);
